@@ -83,7 +83,8 @@ A2mlRaw(b, p0) ==
         RECURSIVE trim(_)
         trim(p) == IF p > 0 /\ IsWs(At(b, p - 1)) /\ At(b, p - 1) # 13 /\ At(b, p - 1) # 10 THEN trim(p - 1) ELSE p
         t1 == trim(stop)
-        t2 == IF t1 > 0 /\ At(b, t1 - 1) = 10 THEN t1 - 1 ELSE t1
+        t2 == IF t1 >= 2 /\ At(b, t1 - 2) = 13 /\ At(b, t1 - 1) = 10 THEN t1 - 2
+              ELSE IF t1 > 0 /\ At(b, t1 - 1) = 10 THEN t1 - 1 ELSE t1
     IN [endpos |-> t2]
 
 Tok(t, s, e, line) == [t |-> t, s |-> s, e |-> e, line |-> line]
